@@ -32,6 +32,7 @@ struct Viol
 {
     PM          props;
     std::string what;
+    int         lost{0}; // > 0: this deviation is "live key <lost> disappeared" and nothing else
 };
 
 struct ME
@@ -576,7 +577,7 @@ struct Spec
                     }
                     else
                     {
-                        if (!T.is_set && wid != m.e[k].wid)
+                        if (!T.is_set && wid != (g_val_eq_mode ? k : m.e[k].wid))
                         {
                             snprintf(
                                 buf, sizeof buf, "lookup of key %d returned write %d, latest write is %d", k, wid, m.e[k].wid);
@@ -676,7 +677,7 @@ struct Spec
                     snprintf(buf, sizeof buf, "key %d is found but has no live entry in the model", k);
                     V(phantag[k], buf);
                 }
-                else if (expect[k] == 1 && !T.is_set && se.wid != ewid[k])
+                else if (expect[k] == 1 && !T.is_set && se.wid != (g_val_eq_mode ? k : ewid[k]))
                 {
                     snprintf(buf, sizeof buf, "key %d holds write %d, latest successful write is %d", k, se.wid, ewid[k]);
                     V(P(1) | (m.e[k].rej || (losetag[k] & P(9)) ? P(9) : 0), buf);
@@ -693,7 +694,7 @@ struct Spec
             else if (expect[k] == 1)
             {
                 snprintf(buf, sizeof buf, "live key %d is no longer found", k);
-                V(losetag[k], buf);
+                vs.push_back(Viol{losetag[k], buf, k});
             }
         }
 
